@@ -495,6 +495,7 @@ func (b *vbroker) ackRead(tag int, kind byte) bool {
 
 // cutIdle: the broker closes the live connection on its own (unsolicited peer close).
 func (b *vbroker) cutIdle() {
+	verifIOWrite()
 	verifLock()
 	var c *vconn
 	if n := len(b.conns); n > 0 && !b.conns[n-1].closed && !b.conns[n-1].eof {
